@@ -889,7 +889,7 @@ func (r *runner) generate(g *gen.Rand) {
 		if !step(hop{Kind: opCompact}) {
 			return
 		}
-		if g.Chance(1, 3) {
+		if g.Chance(1, 3) && !r.restartLowersMinValid() {
 			if !step(hop{Kind: opRestart}) {
 				return
 			}
@@ -932,6 +932,10 @@ func (r *runner) generate(g *gen.Rand) {
 		case x < 72:
 			if r.oooBlock { // C01 finding restart-reloads-compacted-ooo-chunk: not entered
 				r.classes["avoided-restart-after-ooo-compaction"]++
+				continue
+			}
+			if r.restartLowersMinValid() { // C01 finding restart-replays-compacted-samples / WAL checkpoints: not entered
+				r.classes["avoided-restart-lowering-minvalidtime"]++
 				continue
 			}
 			o = hop{Kind: opRestart}
